@@ -19,6 +19,7 @@ from typing import Any
 import numpy as np
 
 import vf.common  # noqa: F401
+from bqskit.compiler.basepass import BasePass
 from bqskit.ir.circuit import Circuit
 from bqskit.ir.gates import BarrierPlaceholder
 from bqskit.ir.gates import CircuitGate
@@ -31,6 +32,8 @@ from bqskit.ir.gates import RYGate
 
 TAG0 = 0.37
 TAGSTEP = 0.0625          # exactly representable: tags compare exactly
+
+RETAG = 0.03125           # exactly representable shift of every tag
 
 PSEUDO = (BarrierPlaceholder, MeasurementPlaceholder, Reset)
 
@@ -147,8 +150,27 @@ def top_level(circuit: Circuit) -> list[tuple]:
     return res
 
 
+class Retag(BasePass):
+    """Harness stage between two partitioners: give every parameter of the
+    (already blocked) circuit a new value through `Circuit.set_params`, as
+    instantiation does.  The block *operations* now carry the parameters;
+    the circuits stored inside their CircuitGates keep the old ones."""
+
+    async def run(self, circuit: Circuit, data: Any) -> None:
+        circuit.set_params([float(p) + RETAG for p in circuit.params])
+
+
+def retagged(flat: list) -> list:
+    """The reference program after a Retag stage."""
+    return [
+        (e[0], e[1], e[2], tuple(p + RETAG for p in e[3]), e[4]) for e in flat
+    ]
+
+
 def make_pass(pname: str, bs: int) -> list:
     """The workflow for a partitioner name."""
+    if pname == 'retag':
+        return [Retag()]
     from bqskit.passes import ClusteringPartitioner
     from bqskit.passes import ExtendBlockSizePass
     from bqskit.passes import GreedyPartitioner
@@ -173,6 +195,8 @@ def make_pass(pname: str, bs: int) -> list:
             return [TDAGPartitioner(bs)]
         if pname == 'single':
             return [GroupSingleQuditGatePass()]
+        if pname == 'extend':
+            return [ExtendBlockSizePass(bs)]
         if pname == 'quick+extend':
             # blocks of fewer than bs qudits are widened to bs
             return [QuickPartitioner(bs), ExtendBlockSizePass(bs)]
